@@ -1,16 +1,29 @@
 #!/bin/bash
-# Build the Go side of the harness from /repo's current working tree (never writes into /repo).
+# Build the Go side of the harness from the repository's current working tree (never writes into it).
+# The repository is /repo unless VERIF_REPO names another checkout (used by ./mutcheck only).
 set -e
 cd "$(dirname "$0")"
 export GOFLAGS=-mod=mod GOPROXY=off GOSUMDB=off GOTOOLCHAIN=local CARGO_NET_OFFLINE=true
+REPO=${VERIF_REPO:-/repo}
 mkdir -p ../build
-cp /repo/go.sum ./go.sum
+cp $REPO/go.sum ./go.sum
+grep -q "=> $REPO\$" go.mod || go mod edit -replace github.com/nelhage/taktician=$REPO
 H=$(pwd)
-cat > ../build/overlay.json <<EOT
-{"Replace": {
- "/repo/tak/zz_verif_export.go": "$H/overlay/tak_export.go.txt",
- "/repo/ai/zz_verif_export.go": "$H/overlay/ai_export.go.txt"
-}}
-EOT
+{
+ echo '{"Replace": {'
+ first=1
+ # overlay/<pkgpath with / replaced by __>__<name>.go.txt  ->  $REPO/<pkgpath>/zz_verif_<name>.go
+ for f in overlay/*.go.txt; do
+   b=$(basename $f .go.txt)
+   case "$b" in *_test) continue;; esac     # in-package test drivers are built by their own scripts
+   pkg=${b%%__*}; name=${b#*__}
+   pkgpath=$(echo $pkg | sed 's/--/\//g')
+   [ $first = 1 ] || echo ','
+   first=0
+   printf ' "%s/%s/zz_verif_%s.go": "%s/%s"' "$REPO" "$pkgpath" "$name" "$H" "$f"
+ done
+ echo
+ echo '}}'
+} > ../build/overlay.json
 go build -overlay ../build/overlay.json -o ../build/runimpl ./cmd/runimpl
 go build -overlay ../build/overlay.json -o ../build/genconsts ./cmd/genconsts
